@@ -149,7 +149,12 @@ pub struct Mutex<T: ?Sized, R> {
 /// [`try_lock`]: `Mutex::try_lock`
 /// [`Deref`]: `std::ops::Deref`
 /// [`DerefMut`]: `std::ops::DerefMut`
-pub struct MutexRef<'a, T: ?Sized + 'a, R: RawMutex>(&'a Mutex<T, R>, PhantomData<R::GuardMarker>);
+pub struct MutexRef<'a, T: ?Sized + 'a, R: RawMutex>(
+	&'a Mutex<T, R>,
+	// never Send, whatever the raw mutex allows for its own guards: this guard
+	// holds its lock on behalf of the thread whose key is stored next to it
+	PhantomData<(R::GuardMarker, *const ())>,
+);
 
 /// An RAII implementation of a “scoped lock” of a mutex. When this structure
 /// is dropped (falls out of scope), the lock will be unlocked.
